@@ -24,5 +24,8 @@ pub mod std_gaps {
     pub assume_specification<T: core::cmp::Ord>[ core::cmp::max ](a: T, b: T) -> (r: T)
         ensures
             <T as OrdSpec>::obeys_cmp_spec() ==> r == (if a.cmp_spec(&b) == core::cmp::Ordering::Greater { a } else { b });
+    pub assume_specification<T: core::cmp::Ord>[ core::cmp::min ](a: T, b: T) -> (r: T)
+        ensures
+            <T as OrdSpec>::obeys_cmp_spec() ==> r == (if a.cmp_spec(&b) == core::cmp::Ordering::Greater { b } else { a });
     }
 }
